@@ -111,7 +111,7 @@ class G:
             (3, self.c_verb), (4, self.c_usermacro), (3, self.c_cite), (2, self.c_ltmacro),
             (2, self.c_foreign), (1, self.c_hspace), (1, self.c_linebreak), (1, self.c_def), (2, self.c_gls),
         ]
-        if ctx == 'text':
+        if ctx == 'text' or (ctx == 'heading' and self.p('heading_footnotes', True)):
             choices += [(4, self.c_footnote)]
         if allow_par and ctx == 'text' and not self.in_heading:
             choices += [(4, self.c_heading), (4, self.c_itemize), (4, self.c_display), (3, self.c_env_unknown),
